@@ -5,6 +5,7 @@ package c05
 
 import (
 	"fmt"
+	"os"
 	"strings"
 	"time"
 
@@ -29,11 +30,15 @@ type scen struct {
 	race   string // "" | "tie" | "early"
 	delay  int    // race: the runtime answers after this many ms
 	second int    // history scenarios: 1-based index of a second invocation that must time out as well (0: none)
+	slowGo bool   // one goroutine of the emulator may be slower than a timer (sched.HoldThroughTimer): time bounds are not judged, and an invocation other than the faulty one may time out itself, nothing else
 }
 
 func (s scen) name() string {
 	if s.race != "" {
 		return fmt.Sprintf("race=%s respond-after=%dms ext=%d B=%d", s.race, s.delay, s.NExt, s.bound)
+	}
+	if s.slowGo {
+		return s.Scen.Name() + fmt.Sprintf(" slow-goroutine B=%d", s.bound)
 	}
 	return s.Scen.Name() + fmt.Sprintf(" B=%d", s.bound)
 }
@@ -73,9 +78,12 @@ func (s scen) run(c *hx.Ctx) *hx.ScenarioResult {
 	if s.race != "" {
 		fi = 2
 	}
-	opt := sched.Options{Bound: s.bound, MaxSteps: 100000, BoundAll: true}
+	opt := sched.Options{Bound: s.bound, MaxSteps: 100000, BoundAll: true, HoldBack: true}
 	if s.race == "" || s.race == "tie" {
 		opt.NoEarlyClock = true
+	}
+	if s.slowGo {
+		opt.HoldLagNs = 1 << 60
 	}
 	body := s.Scen.Body(cfg, func(i int) bool { return i == fi })
 	return hx.ExploreScenario(c, "C05", s.name(), opt, body, s.judge)
@@ -123,6 +131,8 @@ func (s scen) judge(e *sched.Exec) (string, string, *sched.Failure) {
 			if inv.Status != 502 {
 				failf("5", "history-first-fault-outcome", "invocation 1 (runtime exits) ended with status %d", inv.Status)
 			}
+		case s.slowGo && isTimeout:
+			// its own dispatch was slower than its timeout
 		default:
 			if !isEcho {
 				failf("5", fmt.Sprintf("other-invocation-%s:status=%d:%s", rel(i+1, fi), inv.Status, bodyClass(inv.Body, echo)), "invocation %d (%s the timed-out one) ended with status %d body %q", i+1, rel(i+1, fi), inv.Status, trunc(inv.Body))
@@ -138,7 +148,7 @@ func (s scen) judge(e *sched.Exec) (string, string, *sched.Failure) {
 		if (i+1 == fi || i+1 == s.second) && isTimeout {
 			el := inv.AnsNs - inv.IssuedNs
 			// (1) bounded answer; judged in virtual time, meaningful when no timer overtook a runnable thread
-			if e.EarlyClock == 0 {
+			if e.EarlyClock == 0 && !s.slowGo {
 				if el < int64(T)*1e9 {
 					failf("1", "timeout-too-early", "invocation %d timed out after %d ms, before the configured %d s", i+1, el/1e6, T)
 				}
@@ -151,6 +161,14 @@ func (s scen) judge(e *sched.Exec) (string, string, *sched.Failure) {
 			for _, k := range w.K.Log {
 				if k.Kind == "exit" && sched.HB(k.At, inv.AnsAt) {
 					dead[k.Pid] = true
+				}
+				// killed before the answer: SIGKILL cannot be caught (when the exit notice is handled is another matter)
+				if k.Kind == "signal" && k.Sig == 9 && sched.HB(k.At, inv.AnsAt) {
+					for pid, p := range w.K.Procs {
+						if pid == k.Pid || (k.Group && p.Pgid == k.Pid) {
+							dead[pid] = true
+						}
+					}
 				}
 			}
 			for _, k := range w.K.Log {
@@ -284,6 +302,22 @@ func init() {
 		add(1, faults.Fault{Who: "ext0", Point: "after-event", Action: "stall", At: 1}, "", "", b1)
 		add(1, faults.Fault{Who: "ext0", Point: "after-register", Action: "stall", At: 1}, "", "", b1)
 		add(1, faults.Fault{Who: "ext0", Point: "before-register", Action: "stall", At: 1}, "", "ignore", b1)
+		// one goroutine of the emulator slower than a timer: NOT part of the check (see DESIGN I.2: every finding of
+		// this mode needs one goroutine to stall for longer than a whole timeout or the 2 s reaping grace, which the
+		// statement's time bounds exclude); kept for experiments with VERIF_SLOWGO=1
+		for _, f := range []faults.Fault{{Who: "runtime", Point: "after-next", Action: "stall", At: 1}, {Who: "runtime", Point: "after-next", Action: "stall", At: 2},
+			{Who: "runtime", Point: "after-response", Action: "stall", At: 2}} {
+			ff := f
+			if os.Getenv("VERIF_SLOWGO") != "" {
+				ss = append(ss, scen{Scen: faults.Scen{NExt: 0, F: &ff, Timeout: T}, bound: b1, slowGo: true})
+			}
+		}
+		for _, f := range []faults.Fault{{Who: "ext0", Point: "after-event", Action: "stall", At: 1}, {Who: "ext0", Point: "after-register", Action: "stall", At: 1}} {
+			ff := f
+			if os.Getenv("VERIF_SLOWGO") != "" {
+				ss = append(ss, scen{Scen: faults.Scen{NExt: 1, F: &ff, Timeout: T}, bound: b1, slowGo: true})
+			}
+		}
 		// expiry race: the runtime answers exactly at / around the expiry (timer ties are free choices), and
 		// early expiry of the timeout at every scheduling point of a healthy invocation
 		for _, d := range []int{2999, 3000, 3001} {
